@@ -153,6 +153,8 @@ func faultsDecorate(src []byte, mode string) []faultObs {
 			return goast.WithResolver(rr), func() int { return rr.calls }
 		}
 	}
+	var lastDR resolver.DecoratorResolver
+	var lastFset *token.FileSet
 	run := func(k int, sentinel error) (*dst.File, *ast.File, string, int, error, string) {
 		fset := token.NewFileSet()
 		af, err := parser.ParseFile(fset, "", src, parser.ParseComments)
@@ -161,6 +163,7 @@ func faultsDecorate(src []byte, mode string) []faultObs {
 		}
 		before := astDigest(af)
 		dr, calls := mk(k, sentinel)
+		lastDR, lastFset = dr, fset
 		d := decorator.NewDecoratorWithImports(fset, "example.com/local", dr)
 		var df *dst.File
 		var derr error
@@ -184,7 +187,8 @@ func faultsDecorate(src []byte, mode string) []faultObs {
 	for k := 1; k <= n; k += step {
 		sentinel := fmt.Errorf("sentinel %d: %w", k, errInjected)
 		o := faultObs{Op: "decorate-" + mode, Calls: n, FailAt: k, ExpectedCalls: -1}
-		df, _, same, _, err, msg := run(k, sentinel)
+		df, afFailed, same, _, err, msg := run(k, sentinel)
+		drFailed, fsetFailed := lastDR, lastFset
 		if msg != "" {
 			o.Panic, o.Msg = true, msg
 		}
@@ -197,6 +201,19 @@ func faultsDecorate(src []byte, mode string) []faultObs {
 		// retry: fresh decorator, working resolver
 		df2, _, _, _, err2, _ := run(0, nil)
 		o.RetrySame = err2 == nil && df2 != nil && treeDigest(df2) == want
+		// retry with the very same resolver objects (their failure was transient) and the same ast, through a
+		// fresh decorator: nothing of the failed attempt may survive in the resolvers
+		if afFailed != nil && !o.Panic {
+			var df3 *dst.File
+			var err3 error
+			msg3 := guard(func() {
+				df3, err3 = decorator.NewDecoratorWithImports(fsetFailed, "example.com/local", drFailed).DecorateFile(afFailed)
+			})
+			if msg3 != "" || err3 != nil || df3 == nil || treeDigest(df3) != want {
+				o.RetrySame = false
+				o.Msg = fmt.Sprintf("retry with the same resolver objects: %s %v", msg3, err3)
+			}
+		}
 		out = append(out, o)
 	}
 	return out
